@@ -43,6 +43,49 @@ def xenum(e):
 
 
 # ------------------------------------------------------------------------------------------------
+# run-time probe of the two variants the model carries (see Model/C08Model.v: c_lab_ns, c_seed_err)
+# ------------------------------------------------------------------------------------------------
+
+_VARIANTS = None
+
+
+def variants():
+    """lab_ns: do extract_tree_with(out)_taxa_labels resolve labels through the namespace
+    (notes/C08_fix_c.patch) or compare strings; seed_err: exception class when prune_taxa reaches the
+    seed (AttributeError, or SeedNodeDeletionException with notes/C03_fix_1.patch)."""
+    global _VARIANTS
+    if _VARIANTS is None:
+        import dendropy
+        t = dendropy.Tree.get(data="(t0:1,t1:1);", schema="newick")
+        try:
+            n = len(t.extract_tree_with_taxa_labels(["T0", "t1"]).leaf_nodes())
+        except Exception:
+            n = 0
+        lab_ns = (n == 2)
+        t = dendropy.Tree.get(data="(t0:1,t1:1);", schema="newick")
+        try:
+            t.prune_taxa_with_labels(["t0", "t1"])
+            seed = None
+        except Exception as e:
+            seed = xenum(e)
+        if seed not in ("EAttr", "ESeedDel"):
+            raise RuntimeError("probe: emptying a tree with prune_taxa gave %r" % (seed,))
+        # both sites must be of the same class
+        t = dendropy.Tree.get(data="(t0:1,t1:1);", schema="newick")
+        for nd in t.leaf_nodes():
+            nd.taxon = None
+        try:
+            t.prune_leaves_without_taxa()
+            seed2 = None
+        except Exception as e:
+            seed2 = xenum(e)
+        if seed2 != seed:
+            raise RuntimeError("probe: prune_taxa raises %r but prune_leaves_without_taxa %r at the seed" % (seed, seed2))
+        _VARIANTS = {"lab_ns": lab_ns, "seed_err": seed}
+    return _VARIANTS
+
+
+# ------------------------------------------------------------------------------------------------
 # running the real library
 # ------------------------------------------------------------------------------------------------
 
@@ -285,8 +328,10 @@ def to_coq(case, obs):
     steps = ["(%s, %s)" % (c_op(op), c_obs(o))
              for op, o, q in zip(case["ops"], obs, case["coq"]) if q]
     ns = clist(["(%s, %s)" % (cz(k), cz(case["tlabels"][k])) for k in case["ns"]])
-    return "(mkcase %s %s %s %s %s %s)" % (trees.c_tree(case["tree"]), cob(case["rooted"]), ns,
-                                          cbool(case["cs"]), cz(BASE), clist(steps))
+    v = variants()
+    return "(mkcase %s %s %s %s %s %s %s %s)" % (trees.c_tree(case["tree"]), cob(case["rooted"]), ns,
+                                                cbool(case["cs"]), cz(BASE), cbool(v["lab_ns"]), v["seed_err"],
+                                                clist(steps))
 
 
 # ------------------------------------------------------------------------------------------------
@@ -915,7 +960,9 @@ def run(tier, seed, replay=None):
         "the loops over lazy iterators are modelled over the post-order list at loop entry; that this is what the generated iterator machine (Gen/Traversals.v) interleaved with the mutating body yields is now a theorem (lazy_postorder_loop_is_list_loop); trusted there: the translator's rendering of the generator and that the body runs between two resumptions",
         "a new node of an extracted tree is named by its extraction_source in the model; the harness names it by pre-order position",
         "filter functions are functions of node identity only",
+        "two variants of the library are probed at run time and passed to the model in every case: whether the extract_*_labels wrappers resolve labels through the namespace (notes/C08_fix_c.patch), and the exception class when prune_taxa / prune_leaves_without_taxa reach the seed (notes/C03_fix_1.patch); theorems cover both values",
     ]
+    ctx.notes.append("probed variants: %r" % (variants(),))
     if replay:
         import json
         r = json.load(open(replay))["replay"]
